@@ -361,6 +361,9 @@ impl Scenario for RepeatScenario {
                         from: Who::Master,
                     }),
                     3 => script.push(Op::Sleep(rng.range(1, 900))),
+                    // something the outstation answers with an error and does not take for a request: what it processed last
+                    // is still the request before it
+                    4 => script.push(Op::UnknownFunction(*rng.pick(&[0x70u8, 0x22, 0x7F, 0x63]))),
                     _ => {}
                 }
                 script.push(Op::Repeat);
@@ -707,7 +710,10 @@ impl Oracle for RepeatOracle {
                 self.fp = mix(&[self.fp, func as u64, state as u64, verdict]);
             }
         } else if let (Some(s), false) = (sent.as_ref(), is_confirm) {
-            if addressed && !is_repeat && s.bytes.len() >= 2 {
+            if matches!(step.op, Op::UnknownFunction(_)) {
+                // not a request (answered with an error bit, C12): "the request processed last" stays what it was
+                self.bump("probe.unknown_function_between_original_and_duplicate");
+            } else if addressed && !is_repeat && s.bytes.len() >= 2 {
                 // a new request: becomes "the request processed last"
                 self.last = Some(LastRequest {
                     bytes: s.bytes.clone(),
@@ -767,7 +773,13 @@ impl Oracle for RepeatOracle {
                         self.series_fragment_no += 1;
                     }
                 }
-                self.sol_pending = if con {
+                // the outstation waits for the confirmation of a READ response; a confirmation asked for by the answer to anything
+                // else (after a confirm-mandatory broadcast) is not waited for
+                let req_func = match sent.as_ref() {
+                    Some(s) if !is_confirm && s.bytes.len() >= 2 => Some(s.bytes[1]),
+                    _ => self.last.as_ref().and_then(|l| l.bytes.get(1).copied()),
+                };
+                self.sol_pending = if con && req_func == Some(refapp::FUNC_READ) {
                     Some(self.series_fragment_no.max(1))
                 } else {
                     None
